@@ -180,10 +180,23 @@ def _lit_elems(e, lookup, depth=0):
             # elements read through the name: T[i]
             return [ast.copy_location(ast.Subscript(value=ast.Name(id=e.id, ctx=ast.Load()), slice=ast.Constant(value=i), ctx=ast.Load()), e)
                     for i in range(len(d.elts))]
+        if d is None and e.id in THREE_TUPLES:
+            # a parameter / free name called blockshape, shape_pad ..: a triple (IL, XL, Z) by the file format
+            return [ast.copy_location(ast.Subscript(value=ast.Name(id=e.id, ctx=ast.Load()), slice=ast.Constant(value=i), ctx=ast.Load()), e)
+                    for i in range(3)]
         return None
     if isinstance(e, ast.Attribute) and e.attr in THREE_TUPLES and isinstance(e.value, (ast.Name, ast.Attribute)):
         # blockshape / shape_pad are triples (IL, XL, Z) by the file format
         return [ast.copy_location(ast.Subscript(value=copy.deepcopy(e), slice=ast.Constant(value=i), ctx=ast.Load()), e) for i in range(3)]
+    if isinstance(e, ast.Subscript) and isinstance(e.slice, ast.Slice) and e.slice.step is None and all(
+            b is None or (isinstance(b, ast.Constant) and type(b.value) is int) for b in (e.slice.lower, e.slice.upper)):
+        # a constant slice of a known sequence:  blockshape[1:]
+        base = _lit_elems(e.value, lookup, depth + 1)
+        if base is None:
+            return None
+        lo = e.slice.lower.value if e.slice.lower is not None else None
+        hi = e.slice.upper.value if e.slice.upper is not None else None
+        return base[lo:hi]
     if isinstance(e, ast.Call) and isinstance(e.func, ast.Name) and not e.keywords:
         if e.func.id == 'zip' and e.args:
             cols = [_lit_elems(a, lookup, depth + 1) for a in e.args]
@@ -288,6 +301,14 @@ class _Fold(ast.NodeTransformer):
             if out is not None:
                 new = ast.Tuple(elts=out, ctx=ast.Load()) if n.func.id == 'tuple' else ast.List(elts=out, ctx=ast.Load())
                 return _set_loc(new, n)
+        return n
+
+    def visit_ListComp(self, n):
+        self.generic_visit(n)
+        if self.pure is not None and 'listcomp' not in os.environ.get('SGZ_NORM_SKIP', ''):
+            out = self._expand(n)
+            if out is not None:
+                return _set_loc(ast.List(elts=out, ctx=ast.Load()), n)
         return n
 
     def visit_IfExp(self, n):
